@@ -274,6 +274,7 @@ func point(st *streams, s *kit.Summary, x *in, withRate bool) {
 	if f, bad := negativeWait(s, x, x.Elapsed, x.Hits, w, stop, pk); bad {
 		report(s, x, judged(st, x, f))
 	}
+	overflowRegion(s, x, w, stop, pk)
 	switch x.Pacer {
 	case "const":
 		st.constPace.add(op, line)
@@ -506,7 +507,7 @@ func runC01(c *run.Ctx, s *kit.Summary) {
 		"hits around the schedule and around MaxInt64/interval; loops: closed loop in virtual time from (0,0), random stall histories " +
 		"(none / sparse / bursts / jitter), sine/linear loops at 1..1e6 hits/s, sine amplitudes of both signs with |amp|/mean from 0 to 0.999999 (a few up to and above one hit per nanosecond), " +
 		"corpus/C01 witnesses first; linear: hit counts around the overflow guard, negative slopes with a stall past the zero of the rate; " +
-		"constant: hit counts where the 128-bit quotient leaves 64 bits; the real Attack loop driven by the real pacers (e2e); non-trivial = positive (valid) parameters for a point, ≥10 released hits for a loop"
+		"constant: hit counts where the 128-bit quotient leaves 64 bits and where the next deadline crosses 2^63-1, 2^63, 2^64-1, 2^64 ns (±2, Freq/Per also near 1 hit/ns); linear, sine: counts the schedule reaches at the end of representable time; the real Attack loop driven by the real pacers (e2e); non-trivial = positive (valid) parameters for a point, ≥10 released hits for a loop"
 	if c.Replay != "" {
 		replay(c, s, st)
 		return
@@ -551,6 +552,11 @@ func runC01(c *run.Ctx, s *kit.Summary) {
 		var class string
 		x.Freq, x.Per, class = genConstParams(r)
 		x.Elapsed, x.Hits = genConstPoint(r, x.Freq, x.Per)
+		if i%8 == 5 {
+			if f, p, e, h, ok := boundaryProbe(r, x.Freq, x.Per); ok {
+				x.Freq, x.Per, x.Elapsed, x.Hits, class = f, p, e, h, "word_boundary_probe"
+			}
+		}
 		s.Count("const.params:" + class)
 		point(st, s, x, i%4 == 0)
 		if i < 2 {
@@ -567,6 +573,10 @@ func runC01(c *run.Ctx, s *kit.Summary) {
 		}
 		x.Mode = "point"
 		x.Elapsed, x.Hits = genSinePoint(r, x, real)
+		if i%25 == 9 {
+			x = genSineBoundary(r)
+			s.Count("sine.params:end_of_time_boundary")
+		}
 		s.Count(fmt.Sprintf("sine.params:realistic=%v", real))
 		s.Count("sine.point:amp_sign=" + ampSign(x))
 		point(st, s, x, i%4 == 0)
